@@ -407,7 +407,7 @@ func main() {
 				s = ""
 				k := 4 + r.Intn(12)
 				pool := append([]rune{}, litAlphabet...)
-				pool = append(pool, 'b', 'x', '0', '7', 'u', 'n', 0x1F600, 0x7f, 0x85, 0x2028, '/', '*', ';', '<', '>', '&')
+				pool = append(pool, 'b', 'x', '0', '7', 'u', 'n', 0x1F600, 0x7f, 0x85, 0x2028, 7, 8, 11, 12, '/', '*', ';', '<', '>', '&')
 				for j := 0; j < k; j++ {
 					s += string(pool[r.Intn(len(pool))])
 				}
